@@ -47,13 +47,20 @@ pub fn judge(expect: &Expect, rendered: &gen_project::Rendered, note: &str) -> (
         (Expect::Accept, Outcome::SetupError(e)) => (Err(Fail::new(format!("valid-rejected:setup:{}", first_line(e)), e.clone())), "setup-error"),
         (Expect::Reject(_), Outcome::SetupError(_)) => (Ok(()), "rejected"),
         (Expect::Accept, Outcome::Artifacts(_)) => (Ok(()), "accepted"),
-        (Expect::Accept, Outcome::Diagnostics(d)) => (
-            Err(Fail::new(
-                format!("valid-rejected:{}", first_line(d.first().map(|s| s.as_str()).unwrap_or(""))),
-                format!("a program of the generated subset was rejected:\n{}", d.join("\n---\n")),
-            )),
-            "rejected",
-        ),
+        (Expect::Accept, Outcome::Diagnostics(d)) => {
+            // One recorded root cause concerns list-typed variables; it is recognised by what the
+            // diagnostic itself says so that any other rejection of a valid program stays unlisted:
+            // an argument declared as a NULLABLE list (`[T!]`) accepts no variable at all (its type is
+            // compared with source locations); it prints as `expected (T | null)`.
+            let first = d.first().map(|s| s.as_str()).unwrap_or("");
+            let k1 = |m: &str| m.starts_with("Mismatched type. Received $") && m.contains("expected (") && (m.contains("with type [") || m.contains("with type ("));
+            let sig = if !d.is_empty() && d.iter().all(|m| k1(m)) {
+                "valid-rejected:list-variable:nullable-list-argument".to_string()
+            } else {
+                format!("valid-rejected:{}", first_line(first))
+            };
+            (Err(Fail::new(sig, format!("a program of the generated subset was rejected:\n{}", d.join("\n---\n")))), "rejected")
+        }
         (Expect::Reject(rule), Outcome::Artifacts(_)) => (
             Err(Fail::new(format!("mutant-accepted:{rule}"), format!("single-fault mutant compiled without diagnostics: {note}"))),
             "accepted",
